@@ -43,4 +43,12 @@ PROPS = {
         "trusted": COMMON_TRUST + ["clock >= 15 min (the implementation's one-week Instant offset); generated times start at 1000 s"],
         "assumptions": ["clock is monotone", "events reach the node the way the routing table applies them (update / find_node_mut on pingable nodes)"],
     },
+    "C08": {
+        "engines": [{"name": "table", "quick": 40, "thorough": 600, "oracle_tag": "C08",
+                     "op_filter": ["offer", "addnodes", "local", "remote", "dump", "new"]}],
+        "constants": ["MAX_BUCKET_SIZE", "MAX_BUCKETS", "INFO_HASH_LEN", "MAX_LAST_SEEN_MINS", "MAX_REFRESH_REQUESTS"],
+        "trusted": COMMON_TRUST + ["router set fixed before the first offer"],
+        "assumptions": ["router set fixed before the first offer (as within one bootstrap attempt)"],
+        "level_note": "shape invariant proved for all op sequences incl. splits; trade/admission/rejection proved per offer at bucket level and at table level for offers that do not split; that split_bucket re-adds every live node is NOT proved in Lean and is decided by the tie (check_trade on the real table across splits)",
+    },
 }
